@@ -80,6 +80,14 @@ Definition cbor_len (n : nat) : Z :=
   if Nat.ltb n 24 then 1 + Z.of_nat n else if Nat.ltb n 256 then 2 + Z.of_nat n else 3 + Z.of_nat n.
 Definition kv_size (k v : bytes) : Z := 1 + cbor_len (length k) + cbor_len (length v).
 
+(* the whole TO2.DeviceServiceInfo message [IsMoreServiceInfo, [KV...]]: array(2) head, the boolean, the head of the KV
+   array, the KVs.  exchangeServiceInfo reserves 5 bytes of the negotiated size for it (to2.go: mtu -= 5). *)
+Definition arr_head (n : Z) : Z :=
+  if n <? 24 then 1 else if n <? 256 then 2 else if n <? 65536 then 3 else if n <? 4294967296 then 5 else 9.
+Definition batch_size (kvs : list (bytes * bytes)) : Z := fold_right (fun kv a => kv_size (fst kv) (snd kv) + a) 0 kvs.
+Definition message_size (kvs : list (bytes * bytes)) : Z := 1 + 1 + arr_head (Z.of_nat (length kvs)) + batch_size kvs.
+Definition exchange_budget (mtu : Z) : Z := mtu - 5.
+
 (* exchangeServiceInfoRound's read loop: (KVs of this DeviceServiceInfo, IsMoreServiceInfo, state) *)
 Inductive round_res := RRound (kvs : list (bytes * bytes)) (more : bool) (st : cstate) | RFail | ROutOfFuel.
 
